@@ -460,12 +460,17 @@ func genHistories(r *rng, tier string) (out [][]HOp, tags [][]string) {
 			}
 			progs = append(progs, []LOp{{K: "getall"}, {K: "keys"}, {K: "getall"}, {K: "len"}})
 		}
+		// the programs about to run, in case the race detector (or a fatal error of the runtime) ends
+		// the process inside them
+		noteProgressAny(linProgressDir, i, map[string]any{"programs": progs, "setup": pre}, []string{"pattern=" + tag, "process ended while these programs ran concurrently"})
 		h := runHistory(progs, pre)
 		out = append(out, h)
 		tags = append(tags, []string{"pattern=" + tag, fmt.Sprintf("goroutines=%d", len(progs)), fmt.Sprintf("ops=%d", bucket(len(h)/4)*4)})
 	}
 	return
 }
+
+var linProgressDir string
 
 // hammerStore: concurrent operations on keys that already exist (an overwrite is a write too)
 func hammerStore(ms int) {
@@ -534,8 +539,9 @@ func linMain(prop, tier string, seed uint64, out, replay string) error {
 		}
 		hs, tags = [][]HOp{h}, [][]string{nil}
 	} else {
+		linProgressDir = out
 		hs, tags = genHistories(newRng(seed), tier)
-		// before the recorded histories: unrecorded writers and readers hammering two EXISTING keys;
+		// after the recorded histories: unrecorded writers and readers hammering two EXISTING keys;
 		// this binary is built with the race detector (GORACE=halt_on_error=1), so a write that is
 		// not exclusive ends the process here, attributed to this step
 		noteProgressAny(out, -1, "hammer: 8 goroutines, Set / Get / Keys / Len / Merge on two existing keys", []string{"hammer"})
